@@ -267,7 +267,8 @@ struct join_rec {
 // checks the result of awaiting a future against what its leaf did
 template <class Fut>
 void await_future(Fut&& fut, const ctl_ptr& c, rng& r, stats_t& st, bool scope_maybe_closed,
-                  const std::atomic<uint64_t>& scope_stop_call) {
+                  const std::atomic<uint64_t>& scope_stop_call,
+                  std::vector<std::pair<ctl_ptr, uint64_t>>& cancelled_rec) {
   wstate ws;
   bool cancel = r.chance(1, 4);
   bool result_ready_before = c->state.load(std::memory_order_acquire) == ST_COMPLETED;
@@ -315,6 +316,9 @@ void await_future(Fut&& fut, const ctl_ptr& c, rng& r, stats_t& st, bool scope_m
       violation("C09:future:done-without-running-in-open-scope", "leaf %d never started although the scope was open", c->id);
     if (cancel && !leaf_done && !never_started) {
       ++st.fut_cancelled_done;
+      // a cancelled future must have requested stop on the spawned operation before completing (judged at the end of
+      // the history, like dropped futures)
+      cancelled_rec.emplace_back(c, ws.cseq.load());
       // a result already available when the future was started must be delivered even if stop was requested
       // (v1: if the whole scope was told to stop first, its attach wrapper legitimately turns the future into done)
       if (!scope_stopped_first && result_ready_before && (leaf_oc == OC_VALUE || leaf_oc == OC_ERROR) &&
@@ -372,7 +376,7 @@ void run_history(rng& r, stats_t& st, int W, int C) {
   uint64_t base = r.next();
   int idgen_base = 0;
   std::vector<stats_t> wst(W);
-  std::vector<std::vector<std::pair<ctl_ptr, uint64_t>>> dropped(W);
+  std::vector<std::vector<std::pair<ctl_ptr, uint64_t>>> dropped(W), cancelled(W);
 
   for (int w = 0; w < W; ++w) {
     ths.emplace_back([&, w] {
@@ -419,7 +423,7 @@ void run_history(rng& r, stats_t& st, int W, int C) {
             } else {
               if (lr.chance(1, 2))
                 spin_ns(lr.below(20000));
-              await_future(std::move(fut), c, lr, s, true, stop_call);
+              await_future(std::move(fut), c, lr, s, true, stop_call, cancelled[w]);
             }
           }
         } else {
@@ -450,7 +454,7 @@ void run_history(rng& r, stats_t& st, int W, int C) {
             } else {
               if (lr.chance(1, 2))
                 spin_ns(lr.below(20000));
-              await_future(std::move(fut), c, lr, s, true, stop_call);
+              await_future(std::move(fut), c, lr, s, true, stop_call, cancelled[w]);
             }
           }
         }
@@ -608,6 +612,13 @@ void run_history(rng& r, stats_t& st, int W, int C) {
         violation("C09:future:dropped-future-did-not-request-stop", "leaf %d was still running when its future was "
                   "dropped (drop returned at %llu, completer claimed the leaf at %llu) and never saw a stop request", c->id,
                   (unsigned long long)dseq, (unsigned long long)c->claim_seq.load());
+    }
+  for (auto& cv : cancelled)
+    for (auto& [c, fseq] : cv) {
+      if (c->state.load() == ST_COMPLETED && c->start_seq.load() && c->claim_seq.load() > fseq && !c->saw_stop.load())
+        violation("C09:future:cancelled-future-did-not-request-stop", "leaf %d was still running when its cancelled future "
+                  "completed with done (at %llu, completer claimed the leaf at %llu) and never saw a stop request", c->id,
+                  (unsigned long long)fseq, (unsigned long long)c->claim_seq.load());
     }
   for (auto& s : wst) {
     st.discarded += s.discarded;
